@@ -185,23 +185,24 @@ Variable tco : bool.      (* optimizeTailRec on / off *)
 Definition tl_body (p : nat) (ps : list param) (body : query) : tailpos :=
   if tco && Nat.eqb (length ps) 0 then Some (p, Some (Nat.eqb (nvars body) 0)) else None.
 
-Fixpoint compg (q : query) (ce : cenv) (tl : tailpos) (cur pc nv sn : nat) {struct q} : res :=
+Fixpoint compg (q : query) (ce : cenv) (tp : tailpos) (cur pc nv sn : nat) {struct q} : res :=
   let V := fun k : nat => (cur, k) in
   match q with
   | QId => Some ([], nv, sn)
   | QConst c => Some ([Iconst c], nv + lit_vars c, sn)
   | QPipe a b =>
-      match compg a ce None cur pc nv sn with
+      (* when b emits no code, a is followed by whatever follows the pipe *)
+      match compg a ce (match tp with None => None | Some _ => if emptycode b then tp else None end) cur pc nv sn with
       | Some (ca, n1, s1) =>
-          match compg b ce tl cur (pc + length ca) n1 s1 with
+          match compg b ce tp cur (pc + length ca) n1 s1 with
           | Some (cb, n2, s2) => Some (ca ++ cb, n2, s2)
           | None => None end
       | None => None end
   | QComma a b =>
-      match compg a ce tl cur (S pc) nv sn with
+      match compg a ce tp cur (S pc) nv sn with
       | Some (ca, n1, s1) =>
           let l := pc + 1 + length ca + 1 in
-          match compg b ce tl cur l n1 s1 with
+          match compg b ce tp cur l n1 s1 with
           | Some (cb, n2, s2) => Some (Ifork l :: ca ++ Ijump (l + length cb) :: cb, n2, s2)
           | None => None end
       | None => None end
@@ -219,10 +220,10 @@ Fixpoint compg (q : query) (ce : cenv) (tl : tailpos) (cur pc nv sn : nat) {stru
       | Some (cc, n1, s1) =>
           let pre := match cc with [] => [Idup] | _ => Idup :: Iexpbegin :: cc ++ [Iexpend] end in
           let pcc := pc + length pre in
-          match compg a ce tl cur (S pcc) n1 s1 with
+          match compg a ce tp cur (S pcc) n1 s1 with
           | Some (ca, n2, s2) =>
               let e := pcc + 1 + length ca + 1 in
-              match compg b ce tl cur e n2 s2 with
+              match compg b ce tp cur e n2 s2 with
               | Some (cb, n3, s3) =>
                   match is_const1 ca, is_const1 cb with
                   | Some x, Some y =>     (* optimize constant results *)
@@ -238,7 +239,7 @@ Fixpoint compg (q : query) (ce : cenv) (tl : tailpos) (cur pc nv sn : nat) {stru
       match compg a ce None cur (pc + 3) (S nv) sn with
       | Some (ca, n1, s1) =>
           let p1 := pc + 3 + length ca in
-          match compg b ce (tl_fb tl) cur (p1 + 11) n1 s1 with
+          match compg b ce (tl_fb tp) cur (p1 + 11) n1 s1 with
           | Some (cb, n2, s2) =>
               Some (Ipush (VBool false) :: Istore f :: Ifork (p1 + 7) :: ca ++
                     [Idup; Ijumpifnot (p1 + 5); Ipush (VBool true); Istore f; Ijump (p1 + 11 + length cb);
@@ -251,7 +252,7 @@ Fixpoint compg (q : query) (ce : cenv) (tl : tailpos) (cur pc nv sn : nat) {stru
           let hp := pc + 1 + length ca + 2 in
           match h with
           | Some h =>
-              match compg h ce (tl_fb tl) cur hp n1 s1 with
+              match compg h ce (tl_fb tp) cur hp n1 s1 with
               | Some (ch, n2, s2) => Some (Iforktrybegin hp :: ca ++ Iforktryend :: Ijump (hp + length ch) :: ch, n2, s2)
               | None => None end
           | None => Some (Iforktrybegin hp :: ca ++ [Iforktryend; Ijump (hp + 1); Ibacktrack], n1, s1)
@@ -297,7 +298,7 @@ Fixpoint compg (q : query) (ce : cenv) (tl : tailpos) (cur pc nv sn : nat) {stru
                   let p3 := p2 + 2 + length cu in   (* dup; store acc *)
                   match ext with
                   | Some e =>
-                      match compg e (add_var ce x (V n2)) (tl_fb tl) cur (p3 + 2) n3 s3 with
+                      match compg e (add_var ce x (V n2)) (tl_fb tp) cur (p3 + 2) n3 s3 with
                       | Some (cx, n4, s4) =>
                           Some (Idup :: ci ++ Istore acc :: cs ++ Istore (V n2) :: Iload acc :: cu ++
                                 Idup :: Istore acc :: cx, n4, s4)
@@ -310,7 +311,7 @@ Fixpoint compg (q : query) (ce : cenv) (tl : tailpos) (cur pc nv sn : nat) {stru
           | None => None end
       | None => None end
   | QLabel l body =>
-      match compg body (add_lbl ce l (V nv)) (tl_fb tl) cur (S pc) (S nv) sn with
+      match compg body (add_lbl ce l (V nv)) (tl_fb tp) cur (S pc) (S nv) sn with
       | Some (cb, n1, s1) => Some (Iforklabel (V nv) :: cb, n1, s1)
       | None => None end
   | QBreak l =>
@@ -324,7 +325,7 @@ Fixpoint compg (q : query) (ce : cenv) (tl : tailpos) (cur pc nv sn : nat) {stru
                      | [] => [Idup; Inop; Istore (V n1)]
                      | _ => Idup :: Iexpbegin :: cs ++ [Istore (V n1); Iexpend]
                      end in
-          match compg body (add_var ce x (V n1)) tl cur (pc + length pre) (S n1) s1 with
+          match compg body (add_var ce x (V n1)) tp cur (pc + length pre) (S n1) s1 with
           | Some (cb, n2, s2) => Some (pre ++ cb, n2, s2)
           | None => None end
       | None => None end
@@ -370,7 +371,7 @@ Fixpoint compg (q : query) (ce : cenv) (tl : tailpos) (cur pc nv sn : nat) {stru
       match compg body (add_env (fun_env ce') (param_env sn ps)) (tl_body (S pc) ps body) sn (pc + 2 + length pre) (param_slots ps) (S sn) with
       | Some (cb, nvb, s1) =>
           let l := pc + 2 + length pre + length cb + 1 in
-          match compg rest ce' tl cur l nv s1 with
+          match compg rest ce' tp cur l nv s1 with
           | Some (cr, nv', s2) => Some (Ijump l :: Iscope sn nvb (length ps) :: pre ++ cb ++ Iret :: cr, nv', s2)
           | None => None end
       | None => None end
@@ -380,7 +381,7 @@ Fixpoint compg (q : query) (ce : cenv) (tl : tailpos) (cur pc nv sn : nat) {stru
       | Some (CP y) => Some ([Iload y; Icallpc], nv, sn)        (* a filter parameter: load the closure; callpc *)
       | Some (CF p _) =>
           match args with
-          | [] => match tail_call tl p with                     (* compileCallPc with no argument: opcall pc *)
+          | [] => match tail_call tp p with                     (* compileCallPc with no argument: opcall pc *)
                   | Some x => Some ([x], nv, sn)
                   | None => None end
           | _ =>
